@@ -29,30 +29,81 @@ func h_flags() {
 	testnet, litecoin = false, false
 }
 
-// C13: payment amounts. One requested payment "addr=0.dddddddd" (eight arbitrary decimal digits), an arbitrary fee,
-// optional -f (fee subtracted from the first amount) and -useallinputs, two owned unspent outputs of arbitrary value.
-// If a transaction is written it pays the destination exactly what was asked (minus the fee under -f, never
-// wrapping), sends inputs - payment - fee to the change address, and outputs + fee == inputs. Otherwise nothing is written.
+// h_digits returns n arbitrary decimal digits and their value.
+func h_digits(name string, n int) (string, uint64) {
+	d := zzverif.Bytes(name, n)
+	var v uint64
+	for i := range d {
+		zzverif.Assume(d[i] >= '0')
+		zzverif.Assume(d[i] <= '9')
+		v = v*10 + uint64(d[i]-'0') // n <= 12: no wrap
+	}
+	return string(d), v
+}
+
+// h_amount returns an arbitrary amount string of one of the shapes the wallet accepts, with the amount it denotes
+// in satoshi. whole is the integer part (in BTC), for the range check.
+func h_amount() (str string, sat uint64, whole uint64) {
+	shapes := [][2]int{{-1, 8}} // {integer digits (-1: a literal "0"), fractional digits (-1: no decimal point)}
+	for _, ni := range []int{1, 2, 3} {
+		shapes = append(shapes, [2]int{ni, -1})
+	}
+	shapes = append(shapes, [2]int{1, 1}, [2]int{2, 4}, [2]int{1, 0})
+	if zzverif.Tier() > 0 {
+		shapes = append(shapes, [2]int{8, -1}, [2]int{12, -1}, [2]int{3, 8}, [2]int{12, 8}, [2]int{0, 8}, [2]int{2, 7})
+	}
+	zzverif.Bound("amount strings", "\"0.\"+8 digits; 1..3 digit integers; D.d, DD.dddd, \"D.\"; thorough adds 8 and 12 digit integers, DDD.dddddddd, 12+8 digits, \".dddddddd\", DD.ddddddd")
+	sh := shapes[zzverif.Enum("amount-shape", len(shapes))]
+	switch {
+	case sh[0] < 0:
+		str = "0"
+	case sh[0] > 0:
+		str, whole = h_digits("int-digits", sh[0])
+	}
+	if sh[1] >= 0 {
+		str += "."
+		f, fv := h_digits("frac-digits", sh[1])
+		str += f
+		for k := sh[1]; k < 8; k++ {
+			fv *= 10
+		}
+		sat = fv
+	}
+	if whole <= 42000000 {
+		sat += whole * 100000000
+	}
+	return
+}
+
+// C13: payment amounts. One or two requested payments "addr=amount" (amount strings of several shapes with arbitrary
+// digits), an arbitrary fee, optional -f (fee subtracted from the first amount only) and -useallinputs, two owned
+// unspent outputs of arbitrary value. If a transaction is written it pays every destination exactly what was asked
+// (the first minus the fee under -f, never wrapping), sends inputs - payments - fee to the change address, and
+// outputs + fee == inputs. Otherwise nothing is written.
 func H_C13_Amounts() {
 	zzverif.IntMode()
 	h_flags()
 	*subfee = zzverif.Bool("subfee")
 	*useallinputs = zzverif.Bool("useallinputs")
 	curFee = zzverif.Range64("fee", 100000000)
-	digits := zzverif.Bytes("digits", 8)
-	for i := range digits {
-		zzverif.Assume(digits[i] >= '0')
-		zzverif.Assume(digits[i] <= '9')
-	}
 	dest := "1BitcoinEaterAddressDontSendf59kuE"
+	dest2 := "1111111111111111111114oLvT2"
 	chg := "1CounterpartyXXXXXXXXXXXXXXXUWLpVr"
-	s := dest + "=0." + string(digits)
+	nd := 1 + zzverif.Enum("destinations-1", 2)
+	var asked, whole, asked2 uint64
+	var s string
+	if nd == 1 {
+		var am string
+		am, asked, whole = h_amount()
+		s = dest + "=" + am
+	} else {
+		d1, v1 := h_digits("digits", 8)
+		d2, v2 := h_digits("digits2", 8)
+		asked, asked2 = v1, v2
+		s = dest + "=0." + d1 + "," + dest2 + "=0." + d2
+	}
 	send = &s
 	*change = chg
-	var asked uint64
-	for i := range digits {
-		asked = asked*10 + uint64(digits[i]-'0')
-	}
 
 	// two owned outputs
 	var ids [2][32]byte
@@ -102,6 +153,7 @@ func H_C13_Amounts() {
 		zzverif.Assert("C13.inputs.owned", ti.Input.Hash == ids[i] && ti.Input.Vout == 0)
 		in += vals[i]
 	}
+	zzverif.Assert("C13.amount.in-range", whole <= 42000000) // more than every owned output together: must have been refused
 	pay := asked
 	if *subfee {
 		zzverif.Assert("C13.subfee.no-underflow", asked >= curFee)
@@ -109,15 +161,19 @@ func H_C13_Amounts() {
 	}
 	destAddr, _ := btc.NewAddrFromString(dest)
 	chgAddr, _ := btc.NewAddrFromString(chg)
-	zzverif.Assert("C13.pays.destination", len(tx.TxOut) >= 1 && tx.TxOut[0].Value == pay && bytes.Equal(tx.TxOut[0].Pk_script, destAddr.OutScript()))
-	zzverif.Assert("C13.funds.sufficient", in >= pay+curFee)
-	rest := in - pay - curFee
+	zzverif.Assert("C13.pays.destination", len(tx.TxOut) >= nd && tx.TxOut[0].Value == pay && bytes.Equal(tx.TxOut[0].Pk_script, destAddr.OutScript()))
+	if nd == 2 {
+		dest2Addr, _ := btc.NewAddrFromString(dest2)
+		zzverif.Assert("C13.pays.destination2", tx.TxOut[1].Value == asked2 && bytes.Equal(tx.TxOut[1].Pk_script, dest2Addr.OutScript()))
+	}
+	zzverif.Assert("C13.funds.sufficient", in >= pay+asked2+curFee)
+	rest := in - pay - asked2 - curFee
 	if rest > 0 {
-		zzverif.Assert("C13.change", len(tx.TxOut) == 2 && tx.TxOut[1].Value == rest && bytes.Equal(tx.TxOut[1].Pk_script, chgAddr.OutScript()))
+		zzverif.Assert("C13.change", len(tx.TxOut) == nd+1 && tx.TxOut[nd].Value == rest && bytes.Equal(tx.TxOut[nd].Pk_script, chgAddr.OutScript()))
 	} else {
-		zzverif.Assert("C13.no-change-output", len(tx.TxOut) == 1)
+		zzverif.Assert("C13.no-change-output", len(tx.TxOut) == nd)
 	}
 	if !*useallinputs && len(tx.TxIn) == 2 {
-		zzverif.Assert("C13.inputs.needed", vals[0] < pay+curFee)
+		zzverif.Assert("C13.inputs.needed", vals[0] < pay+asked2+curFee)
 	}
 }
